@@ -104,4 +104,6 @@ FIXED_BY_SUBJECT = {
  "fix: absurd length field read from a file leaked MemoryError": [
    ('C11', 'a huge length field raised MemoryError from file/gzip substrates but underrun from bytes'),
    ('C08', 'MemoryError leaked for huge lengths on file substrates')],
+ "fix: a length of exactly sys.maxsize octets was refused on files but reported short in memory": [
+   ('C11', 'a definite length of sys.maxsize (or one octet more, after the BIT STRING pad octet) gave PyAsn1Error from file/gzip/raw substrates but underrun from bytes/BytesIO: input 03 88 80 00 00 00 00 00 00 00 + filler')],
 }
